@@ -9,19 +9,41 @@ from . import lib
 from .c16 import r161, r162, r163
 
 
-def r154(ctx, fx):
-    rid = ctx.rule("R15.4", "the rename handler derives its text edits from Definition::definition_and_usages() of the definition under the cursor (definition site "
-                   "plus every recorded usage, all files) — not from a text search — and replaces each with the new name")
+def rename_bodies(fx):
+    """RenameHandler::handle and the free functions of mos::lsp::rename it delegates to"""
     fns = [f for f in fx.all_fns("mos") if f.d.get("impl_self") == "mos::lsp::rename::RenameHandler" and f.path.endswith("::handle") and
            f.d.get("impl_trait") == "mos::lsp::traits::RequestHandler"]
     if len(fns) != 1:
+        return []
+    out = [fns[0]]
+    seen = {fns[0].id}
+    work = [fns[0]]
+    while work:
+        f = work.pop()
+        for o in lib.owned(fx, f):
+            for _, t in lib.calls(o):
+                p, fr = lib.callee(t)
+                g = fx.fns.get(fr.get("rid") or fr.get("id")) if p else None
+                if g is not None and g.id not in seen and g.kind == "fn" and g.path.startswith("mos::lsp::rename::") and g.d.get("hir"):
+                    seen.add(g.id)
+                    out.append(g)
+                    work.append(g)
+    return out
+
+
+def r154(ctx, fx):
+    rid = ctx.rule("R15.4", "the rename handler derives its text edits from Definition::definition_and_usages() of the definition under the cursor (definition site "
+                   "plus every recorded usage, all files) — not from a text search — and replaces each with the new name")
+    fns = rename_bodies(fx)
+    if not fns:
         ctx.fail_closed(rid, "RenameHandler::handle not found")
         return
     f = fns[0]
     callees = set()
-    for o in lib.owned(fx, f):
-        for _, t in lib.calls(o):
-            callees.add(lib.norm(lib.callee(t)[0] or ""))
+    for b in fns:
+        for o in lib.owned(fx, b):
+            for _, t in lib.calls(o):
+                callees.add(lib.norm(lib.callee(t)[0] or ""))
     k = "%s|edit-source" % f.path
     ctx.inst(rid, k, sample={"uses_definition_and_usages": any(c.endswith("Definition::definition_and_usages") for c in callees)})
     if not any(c.endswith("Definition::definition_and_usages") for c in callees):
@@ -33,7 +55,7 @@ def r154(ctx, fx):
         ctx.finding(rid, k, "rename uses a text search (%s): equally named symbols in other scopes, comments or strings would be edited" % bad, f.where)
     k = "%s|new-name" % f.path
     ctx.inst(rid, k)
-    uses_new = any(x.get("k") == "field" and x["name"] == "new_name" for x in lib.hwalk(f.hir["body"]))
+    uses_new = any(x.get("k") == "field" and x["name"] == "new_name" for b in fns for x in lib.hwalk(b.hir["body"]))
     if not uses_new:
         ctx.finding(rid, k, "the edits are not built from params.new_name", f.where)
 
@@ -80,14 +102,12 @@ def r156(ctx, fx):
                    "source text at the definition with the symbol's name in its defining scope and answers nothing when they differ (generated symbols: loop "
                    "`index`, block `-`/`+`); it leaves `super` usages alone; it narrows an import's `name as alias` usage to the name; add_symbol records further "
                    "definitions of a variable as usages and clears what the analysis knew about a re-used symbol index")
-    rh = [f for f in fx.all_fns("mos") if f.d.get("impl_self") == "mos::lsp::rename::RenameHandler" and f.path.endswith("::handle") and
-          f.d.get("impl_trait") == "mos::lsp::traits::RequestHandler"]
+    bodies = rename_bodies(fx)      # the HIR of a function contains the bodies of its closures
     ads = fx.fn("mos_core::codegen::CodegenContext::add_symbol")
-    if len(rh) != 1 or ads is None:
+    if not bodies or ads is None:
         ctx.fail_closed(rid, "RenameHandler::handle / add_symbol not found")
         return
-    rh = rh[0]
-    bodies = [rh]     # the HIR of a function contains the bodies of its closures
+    rh = bodies[0]
 
     def calls_any(sfx):
         return any(True for b in bodies if b.d.get("hir") for x, p in lib.hir_calls(b.hir["body"]) if p and lib.pm(p, sfx))
@@ -106,6 +126,19 @@ def r156(ctx, fx):
         ctx.inst(rid, key)
         if not ok:
             ctx.finding(rid, key, msg, rh.where)
+    key = "RenameHandler|every-import"
+    ctx.inst(rid, key)
+    loops = [n for n in lib.hwalk(rh.hir["body"]) if n.get("k") == "match" and n.get("src") == "ForLoopDesugar" and
+             lib.strip(n["scrut"]).get("k") == "call" and str(lib.hcallee(lib.strip(n["scrut"]))).endswith("into_iter") and
+             any(True for x, p in lib.hir_calls(n) if p and (p.endswith("Definition::definition_and_usages") or
+                                                             any(p == b.path for b in bodies[1:])))]
+    def whole(n):
+        it = repr(lib.hdesc(lib.strip(lib.strip(n["scrut"])["args"][0])))
+        return not any(w in it for w in ("::take", "::skip", "::nth", "::first", "::step_by", "::last", "::next"))
+    loops = [n for n in loops if whole(n)]
+    if not loops:
+        ctx.finding(rid, key, "the rename handler edits the usages of one definition only: a file that is imported twice has one copy of its symbols per import, all "
+                    "defined at the same place, and the usages that go through the other imports keep the old name", rh.where)
     key = "add_symbol|further-definitions"
     ctx.inst(rid, key)
     if not any(True for x, p in lib.hir_calls(ads.hir["body"], "Definition::add_usage")):
